@@ -10,7 +10,7 @@ void harness(void)
     xv_ghost_havoc(); xv_fd_havoc(); xv_epoll_havoc(); xv_xpoll_havoc();
     struct xpoll *x;
     int rv = allocate_bell_reg_idx(x);
-    if (xv_g_i0 == 0 && rv == 0) XV_CANARY("empty table grows to 2");
-    if (xv_g_i0 == xv_g_i1 && xv_g_i0 == 6 && rv == 6) XV_CANARY("full table grows, first new slot");
-    if (xv_g_i1 < xv_g_i0 && rv == 1) XV_CANARY("free slot reused");
+    if (xv_g_b0 == 0 && rv == 0) XV_CANARY("empty table grows to 2");
+    if (xv_g_b0 == xv_g_b1 && xv_g_b0 == 6 && rv == 6) XV_CANARY("full table grows, first new slot");
+    if (xv_g_b1 < xv_g_b0 && rv == 1) XV_CANARY("free slot reused");
 }
